@@ -89,8 +89,8 @@ func propC08() *PropSpec {
 
 func propC07() *PropSpec {
 	return &PropSpec{
-		ID:   "C07",
-		Rule: "one case = one feasible path of json.Minify (real parse/v2/json parser + Number) + RFC 8259 reference recogniser/tokenizer over ALL byte strings of the stated length; non-trivial = completes with a distinct symbolic output",
+		ID:          "C07",
+		Rule:        "one case = one feasible path of json.Minify (real parse/v2/json parser + Number) + RFC 8259 reference recogniser/tokenizer over ALL byte strings of the stated length; non-trivial = completes with a distinct symbolic output",
 		Assumptions: []string{"input satisfies the harness's RFC 8259 recogniser (strings: any bytes >= 0x20, escapes per RFC)", "Precision = 0", "reader hands the caller's slice to parse.NewInput (as minify.M.Bytes does), one spare byte of capacity"},
 		Outside:     []string{"documents longer than n bytes / templates with holes longer than n", "nesting deeper than what fits in the bound", "Precision > 0"},
 		Stubs:       []string{"parse.NewError/NewErrorLexer (error message formatting) return an opaque non-nil error"},
@@ -105,6 +105,7 @@ func propC07() *PropSpec {
 			}
 			js = append(js, jobsN("json", "VerifJSONValue", pick(rng(1, 5), rng(1, 6)), "all RFC 8259 texts of n bytes, KeepNumbers symbolic")...)
 			js = append(js, jobsN("json", "VerifJSONTemplate", pick(rng(1, 4), rng(1, 5)), "value hole of n bytes inside 7 document skeletons")...)
+			js = append(js, jobsN("json", "VerifJSONNumberExp", pick(rng(1, 4), rng(1, 5)), "[<mantissa of n bytes><one of 10 exponent suffixes>]")...)
 			js = append(js, jobsN("json", "VerifJSONHugeExp", pick([]int{1}, []int{1, 2}), "numbers with 18-20 digit exponents around MinInt/MaxInt inside a document")...)
 			js = append(js, Job{Pkg: "json", Fn: "VerifJSONTwin", N: 3, ExpectFail: true, Desc: "vacuity twin"})
 			return js
@@ -114,8 +115,8 @@ func propC07() *PropSpec {
 
 func propC06() *PropSpec {
 	return &PropSpec{
-		ID:   "C06",
-		Rule: "one case = one feasible path of xml.Minify (real parse/v2/xml lexer, TokenBuffer, entity/escape helpers) + reference XML reader on input and output, over ALL hole contents of the stated length/alphabet; non-trivial = completes with a distinct symbolic output",
+		ID:          "C06",
+		Rule:        "one case = one feasible path of xml.Minify (real parse/v2/xml lexer, TokenBuffer, entity/escape helpers) + reference XML reader on input and output, over ALL hole contents of the stated length/alphabet; non-trivial = completes with a distinct symbolic output",
 		Assumptions: []string{"input is well-formed per the harness's reference reader (ASCII names, predefined + numeric references, no internal DTD subset)", "hole bytes range over the alphabet stated in the harness", "whitespace-only text runs carry no demand (they may vanish, also with KeepWhitespace)", "KeepWhitespace clause applies at element-tag boundaries, not at PI/DOCTYPE boundaries"},
 		Outside:     []string{"documents larger than the templates/raw bound", "internal DTD subsets", "non-ASCII names", "bytes outside the hole alphabets"},
 		Stubs:       []string{"parse.NewError/NewErrorLexer return an opaque non-nil error"},
@@ -145,8 +146,8 @@ func propC06() *PropSpec {
 
 func propC18() *PropSpec {
 	return &PropSpec{
-		ID:   "C18",
-		Rule: "one case = one feasible path of Mediatype / DataURI (real parse.DataURI, DecodeURL, EncodeURL, encoding/base64, M.Bytes) + RFC 2397/3986/4648 reference decoder, over ALL byte strings of the stated length (256 values per byte); non-trivial = completes with a distinct symbolic output",
+		ID:          "C18",
+		Rule:        "one case = one feasible path of Mediatype / DataURI (real parse.DataURI, DecodeURL, EncodeURL, encoding/base64, M.Bytes) + RFC 2397/3986/4648 reference decoder, over ALL byte strings of the stated length (256 values per byte); non-trivial = completes with a distinct symbolic output",
 		Assumptions: []string{"quoted strings in media types are terminated (even number of double quotes)", "DataURI: input has the shape data:<header>,<payload> with a strictly valid base64 payload when ;base64 is given", "valid percent-encoding = RFC 3986 unreserved/reserved characters (without #) and %HH", "the documented escape table parse.DataURIEncodingTable is used to compute the length of the percent-encoded alternative"},
 		Outside:     []string{"payloads/headers longer than the bound", "media types beyond the listed heads in the payload harness"},
 		Stubs:       []string{"sync.RWMutex methods are no-ops (sequential)", "registered minifier = harness stub that drops 'x' and doubles 'y'"},
@@ -160,6 +161,8 @@ func propC18() *PropSpec {
 				return b
 			}
 			js = append(js, jobsN(".", "VerifMediatype", pick(rng(0, 5), rng(0, 6)), "Mediatype on all byte strings of n bytes")...)
+			js = append(js, jobsN(".", "VerifMediatypeQuoted", pick([]int{6, 7}, []int{6, 7, 8}), "Mediatype on strings of n bytes over { space, quote, A, ; }: several quoted strings after stripped whitespace")...)
+			js = append(js, jobsN(".", "VerifDataURIHeadTail", pick(rng(0, 2), rng(0, 3)), "data:<default type / default charset head><n bytes over { x 2 ; = a space }>,abc")...)
 			js = append(js, jobsN(".", "VerifDataURIRaw", pick(rng(1, 4), rng(1, 4)), "data: + n arbitrary bytes, empty registry")...)
 			js = append(js, jobsN(".", "VerifDataURIPayload", pick(rng(0, 2), rng(0, 3)), "10 headers x n arbitrary payload bytes x stub registered or not")...)
 			js = append(js, jobsN(".", "VerifDataURIUnits", pick([]int{7}, rng(5, 8)), "3 headers x n payload units from {%23,a,x,y} x stub or not (encoding decision on longer payloads)")...)
@@ -172,8 +175,8 @@ func propC18() *PropSpec {
 
 func propC15() *PropSpec {
 	return &PropSpec{
-		ID:   "C15",
-		Rule: "one case = one feasible path of Add*/Minify/MinifyMimetype/Match (+ real parse.Mediatype) + reference dispatch model, over ALL registration histories of the stated length (5 kinds per step) and ALL media type strings of the stated length over {a b c / ; = space x}; non-trivial = completes with a distinct symbolic output",
+		ID:          "C15",
+		Rule:        "one case = one feasible path of Add*/Minify/MinifyMimetype/Match (+ real parse.Mediatype) + reference dispatch model, over ALL registration histories of the stated length (5 kinds per step) and ALL media type strings of the stated length over {a b c / ; = space x}; non-trivial = completes with a distinct symbolic output",
 		Assumptions: []string{"media type string is well-formed: SP* tok/tok SP* (; SP* key SP* [= SP* value SP*])*", "regular expressions are two fixed overlapping patterns ^a/[bc]$ and ^[ab]/c$"},
 		Outside:     []string{"AddCmd/AddCmdRegexp (spawn processes)", "other regular expressions (regexp package is modelled for the two patterns)", "histories longer than the bound", "quoted parameter values, upper case"},
 		Stubs:       []string{"regexp.MustCompile/(*Regexp).Match/MatchString/String: harness model of the two patterns (natively the real regexp package)", "sync.RWMutex no-ops", "minifiers are recording stubs"},
@@ -196,16 +199,25 @@ func propC15() *PropSpec {
 
 func propC14() *PropSpec {
 	return &PropSpec{
-		ID:   "C14",
-		Rule: "one case = one feasible path of a Minify method on a concrete document with the fault position k, the fault mode (writer from its k-th call / reader after k bytes / both), the chunking of the reader and the kind of reader error (plain / wrapping io.EOF) symbolic; non-trivial = completes with a distinct symbolic output",
+		ID:          "C14",
+		Rule:        "one case = one feasible path of a Minify method on a concrete document with the fault position k, the fault mode (writer from its k-th call / reader after k bytes / both), the chunking of the reader and the kind of reader error (plain / wrapping io.EOF) symbolic; non-trivial = completes with a distinct symbolic output",
 		Assumptions: []string{"documents are the concrete ones listed in harness/<pkg>/io.go (the input does not influence the claim beyond the number of writes)", "0 <= k <= 64"},
-		Outside:     []string{"(*M).Reader / (*M).Writer / ResponseWriter wrappers: they need goroutines and io.Pipe, which the engine does not model (not claimed)", "cmdMinifier (spawns processes)", "documents other than the listed ones"},
+		Outside:     []string{"(*M).Reader wrapper under reader faults is covered only by the C12 harness (minifier error reaches the consumer)", "cmdMinifier (spawns processes)", "documents other than the listed ones", "goroutines of the wrappers are coroutines switching at the blocking points of the modelled io.Pipe"},
 		Stubs:       []string{"errors.Is: loop over Unwrap without the reflective comparability check", "sort.Slice: reflection-free stable insertion sort", "internal/bytealg leaves: plain Go loops"},
 		Jobs: func(tier string) []Job {
 			var js []Job
 			for _, p := range [][2]string{{"json", "VerifJSONIOFault"}, {"xml", "VerifXMLIOFault"}, {"css", "VerifCSSIOFault"}, {"svg", "VerifSVGIOFault"}, {"html", "VerifHTMLIOFault"}, {"js", "VerifJSIOFault"}} {
 				js = append(js, Job{Pkg: p[0], Fn: p[1], N: 0, Desc: "symbolic fault position/mode on concrete documents"})
 			}
+			for _, p := range [][2]string{{"xml", "VerifXMLIOFaultTruncated"}, {"css", "VerifCSSIOFaultTruncated"}, {"svg", "VerifSVGIOFaultTruncated"}, {"html", "VerifHTMLIOFaultTruncated"}} {
+				js = append(js, Job{Pkg: p[0], Fn: p[1], N: 0, Desc: "every prefix of a document using every token kind x writer failing from its first / second call"})
+			}
+			hi := 3
+			if tier != "quick" {
+				hi = 4
+			}
+			js = append(js, jobsN(".", "VerifWriterWrapper", rng(0, hi), "Writer wrapper: symbolic producer chunks, underlying writer failing from its k-th call: Write or Close reports it, Close returns")...)
+			js = append(js, jobsN(".", "VerifResponseWriterFault", rng(1, hi), "ResponseWriter over an underlying writer failing from its k-th Write with 4 error kinds")...)
 			js = append(js, Job{Pkg: "json", Fn: "VerifJSONIOTwin", N: 0, ExpectFail: true, Desc: "vacuity twin"})
 			return js
 		},
@@ -214,8 +226,8 @@ func propC14() *PropSpec {
 
 func propC10() *PropSpec {
 	return &PropSpec{
-		ID:   "C10",
-		Rule: "one case = one feasible path of an entry point on ALL byte strings of the stated length (256 values per byte, caller-owned slice with one spare byte of capacity): no panic outcome, no step-budget overrun (hang), guard byte restored, error => original data; non-trivial = completes with a distinct symbolic output",
+		ID:          "C10",
+		Rule:        "one case = one feasible path of an entry point on ALL byte strings of the stated length (256 values per byte, caller-owned slice with one spare byte of capacity): no panic outcome, no step-budget overrun (hang), guard byte restored, error => original data; non-trivial = completes with a distinct symbolic output",
 		Assumptions: []string{"step budget 5e6 SSA instructions per path stands for 'terminates' (longest observed path is < 1e5)", "empty registry for embedded content"},
 		Outside:     []string{"inputs longer than the stated n (in particular: time proportional to input size, memory growth, recursion limits are asymptotic claims that no bound reaches)", "option values other than the defaults in the *Total harnesses", "template-shaped inputs are covered by the harnesses of C03-C06 (a panic there is a violation of those checks as well)"},
 		Stubs:       []string{"fmt.Sprintf/Errorf run natively on concrete arguments (error messages)", "sync.Pool without per-P cache", "sort.Slice as stable insertion sort", "parse.NewError/NewErrorLexer opaque"},
@@ -238,10 +250,10 @@ func propC10() *PropSpec {
 			js = append(js, jobsN("xml", "VerifXMLBytesContract", pick(rng(0, 5), rng(0, 6)), "(*M).Bytes error contract, xml")...)
 			js = append(js, jobsN("css", "VerifCSSTotal", pick(rng(0, 2), rng(0, 3)), "css.Minify(arbitrary bytes)")...)
 			js = append(js, jobsN("html", "VerifHTMLTotal", pick(rng(0, 3), rng(0, 4)), "html.Minify(arbitrary bytes)")...)
-			js = append(js, jobsN("css", "VerifCSSDeclTotal", pick(rng(0, 2), rng(0, 3)), "css: a{P:F(ARG<end> for 14 properties x 10 functions x 5 endings, ARG = n bytes over a punctuation alphabet")...)
+			js = append(js, jobsN("css", "VerifCSSDeclTotal", pick(rng(0, 1), rng(0, 2)), "css: a{P:F(ARG<end> for 14 properties x 10 functions x 5 endings, ARG = n bytes over a punctuation alphabet")...)
 			js = append(js, jobsN("svg", "VerifSVGTruncated", []int{0}, "svg: every prefix of document templates")...)
 			js = append(js, jobsN("svg", "VerifSVGTotal", pick(rng(0, 4), rng(0, 5)), "svg.Minify(arbitrary bytes)")...)
-			js = append(js, jobsN("html", "VerifHTMLAttrURL", pick(rng(4, 6), rng(4, 7)), "html: <tag urlattr=\"V\">, V = n bytes over a URL-scheme alphabet (panic freedom on template-shaped input)")...)
+			js = append(js, jobsN("html", "VerifHTMLAttrURL", pick(rng(4, 5), rng(4, 6)), "html: <tag urlattr=\"V\">, V = n bytes over a URL-scheme alphabet (panic freedom on template-shaped input)")...)
 			js = append(js, jobsN("js", "VerifJSTotal", pick(rng(0, 2), rng(0, 3)), "js.Minify(arbitrary bytes)")...)
 			js = append(js, Job{Pkg: ".", Fn: "VerifTotalTwin", N: 2, ExpectFail: true, Desc: "vacuity twin: an index panic must be reported"})
 			return js
@@ -251,8 +263,8 @@ func propC10() *PropSpec {
 
 func propC09() *PropSpec {
 	return &PropSpec{
-		ID:   "C09",
-		Rule: "one case = one feasible path: (a) arbitrary bytes -> if the minifier returns nil, its output fed to the same minifier returns nil again; (b) reference-valid input -> output valid per the independent reference recogniser (RFC 8259 recogniser, reference XML reader); non-trivial = completes with a distinct symbolic output",
+		ID:          "C09",
+		Rule:        "one case = one feasible path: (a) arbitrary bytes -> if the minifier returns nil, its output fed to the same minifier returns nil again; (b) reference-valid input -> output valid per the independent reference recogniser (RFC 8259 recogniser, reference XML reader); non-trivial = completes with a distinct symbolic output",
 		Assumptions: []string{"(b) uses the assumptions of C07/C06 harnesses"},
 		Outside:     []string{"real-world sized documents, fuzz corpora, benchmark files, byte-level mutations of those: whole-document runs are outside any symbolic bound and are not replaced by concrete runs (not applicable to this technique)", "independent parsers for JS/CSS/HTML (none is written): for those languages only re-acceptance on small inputs is decided"},
 		Stubs:       []string{"as C07/C06/C10"},
@@ -287,8 +299,8 @@ func propC09() *PropSpec {
 
 func propC03() *PropSpec {
 	return &PropSpec{
-		ID:   "C03",
-		Rule: "one case = one feasible path of html.Minify (real parse/v2/html lexer, TokenBuffer, tables, EscapeAttrVal, entity replacement) on a template with symbolic holes + reference start-tag tokenizer / character-reference decoder / rendered-word-stream oracle; non-trivial = completes with a distinct symbolic output",
+		ID:          "C03",
+		Rule:        "one case = one feasible path of html.Minify (real parse/v2/html lexer, TokenBuffer, tables, EscapeAttrVal, entity replacement) on a template with symbolic holes + reference start-tag tokenizer / character-reference decoder / rendered-word-stream oracle; non-trivial = completes with a distinct symbolic output",
 		Assumptions: []string{"templates: <tag attr=QVQ>t ; T1<X>T2</X>T3 (inside the parent its content model requires) ; <pre>/<textarea>", "hole alphabets as stated in harness/html/*.go; named references restricted to amp lt gt quot apos", "empty registry (embedded CSS/JS is only trimmed)", "word-stream oracle: inline boundaries transparent, block boundaries and <br> separate, img/button are objects"},
 		Outside:     []string{"full HTML5 tree construction (adoption agency, foster parenting, optional start tags, tables): the reference tree builder covers body/div/p/h1/ul/li/dl/dt/dd/span/ruby/rt/rp only", "trees of more than n build actions", "documents beyond the templates", "template delimiters"},
 		Stubs:       []string{"fmt native on concrete args", "parse.NewError opaque"},
@@ -303,7 +315,7 @@ func propC03() *PropSpec {
 			}
 			js = append(js, jobsN("html", "VerifHTMLAttrRaw", pick(rng(0, 3), rng(0, 4)), "<tag attr=QVQ>: V = n bytes over the quoting alphabet, 3 quoting styles x 8 attributes x 2 tags x KeepQuotes/KeepDefaultAttrVals")...)
 			js = append(js, jobsN("html", "VerifHTMLAttrUnits", pick(rng(1, 2), rng(1, 2)), "V = n units out of 20 character references / quotes / separators")...)
-			js = append(js, jobsN("html", "VerifHTMLAttrURL", pick(rng(4, 5), rng(4, 7)), "URL attributes: scheme handling")...)
+			js = append(js, jobsN("html", "VerifHTMLAttrURL", pick(rng(4, 5), rng(4, 6)), "URL attributes: scheme handling")...)
 			js = append(js, jobsN("html", "VerifHTMLText", pick(rng(1, 2), rng(1, 2)), "T1<X>T2</X>T3 for 13 element kinds, KeepWhitespace/KeepEndTags symbolic: rendered word sequence")...)
 			js = append(js, jobsN("html", "VerifHTMLPre", pick(rng(0, 3), rng(0, 5)), "pre/textarea content untouched")...)
 			js = append(js, jobsN("html", "VerifHTMLTree", pick(rng(1, 3), rng(1, 4)), "conforming trees built by n symbolic actions over 13 element kinds + text + comments; reference tree builder on input and output")...)
@@ -316,8 +328,8 @@ func propC03() *PropSpec {
 
 func propC04() *PropSpec {
 	return &PropSpec{
-		ID:   "C04",
-		Rule: "one case = one feasible path of css.Minify (real parse/v2/css lexer+parser, minifyGrammar/Declaration/Tokens/Property, Number/Decimal, colour tables) on a declaration template a{prop:VALUE} with symbolic value bytes / symbolic token choices + reference value semantics (CSS Color 4, Values 4, Backgrounds 3, Flexbox 1); non-trivial = completes with a distinct symbolic output",
+		ID:          "C04",
+		Rule:        "one case = one feasible path of css.Minify (real parse/v2/css lexer+parser, minifyGrammar/Declaration/Tokens/Property, Number/Decimal, colour tables) on a declaration template a{prop:VALUE} with symbolic value bytes / symbolic token choices + reference value semantics (CSS Color 4, Values 4, Backgrounds 3, Flexbox 1); non-trivial = completes with a distinct symbolic output",
 		Assumptions: []string{"templates a{prop:VALUE}; VALUE = hex digits / number lexeme bytes (symbolic bytes) or 1-4 tokens chosen symbolically from the lists in harness/css/values.go", "colour keyword reference = SVG 1.1/CSS named colours from golang.org/x/image/colornames + rebeccapurple", "colour functions: arguments from grids, float arithmetic runs concretely; tolerance one 8-bit unit", "fully transparent colours compare equal regardless of their channels"},
 		Outside:     []string{"selectors, at-rule preludes, nested at-rules, parse-error pass-through", "font, background (other than -position), box-shadow, text-*, unicode-range, url()/string rewrites: not yet covered by a reference oracle", "values longer than four tokens; float-valued colour arguments beyond the grids; Precision > 0"},
 		Stubs:       []string{"fmt native on concrete args", "math.* natively on concrete floats"},
@@ -348,8 +360,8 @@ func propC04() *PropSpec {
 
 func propC01() *PropSpec {
 	return &PropSpec{
-		ID:   "C01",
-		Rule: "one case = one feasible path of (a) the literal kernels minifyString/replaceEscapes, isFalsy, hexadecimalNumber on symbolic literal bytes with ECMAScript reference decoders, (b) js.Minify end to end on programs generated from symbolic choices (fully parenthesised source), both source and output parsed by the dependency's parser and run by the mini reference evaluator on symbolic variable values and symbolic host-call results; non-trivial = completes with a distinct symbolic output",
+		ID:          "C01",
+		Rule:        "one case = one feasible path of (a) the literal kernels minifyString/replaceEscapes, isFalsy, hexadecimalNumber on symbolic literal bytes with ECMAScript reference decoders, (b) js.Minify end to end on programs generated from symbolic choices (fully parenthesised source), both source and output parsed by the dependency's parser and run by the mini reference evaluator on symbolic variable values and symbolic host-call results; non-trivial = completes with a distinct symbolic output",
 		Assumptions: []string{"program fragment: function m(a,b,c){...} with expression statements, assignments to globals/locals, var, if/else, return, throw; expressions over ! && || ?? ?: , == null === undefined assignment f(x) a.p void and literals", "reference evaluator value domain: undefined, null, booleans, small integers, empty/non-empty string, objects; host calls and property reads are trace events with fresh symbolic results", "paths on which either program leaves the evaluator's fragment are assumed away (not covered)", "literal kernels: alphabets and unit lists in harness/js/literals.go"},
 		Outside:     []string{"the language outside the fragment (classes, generators, destructuring, loops, switch, try, labels, getters, with, async, modules, ASI between arbitrary statements)", "expression depth > 1 in quick / > 2 anywhere; more than 2-3 statements", "execution in a real JavaScript engine", "numeric literal kernels other than hexadecimal <= 4 digits; regular expression literals", "Precision > 0"},
 		Stubs:       []string{"fmt native on concrete args", "sort.Slice model", "sync.Pool model"},
@@ -382,8 +394,8 @@ func propC01() *PropSpec {
 
 func propC16() *PropSpec {
 	return &PropSpec{
-		ID:   "C16",
-		Rule: "one case = one feasible path of a minifier with its option fields symbolic (KeepNumbers, KeepWhitespace, KeepCSS2, KeepDefaultAttrVals, KeepQuotes, KeepEndTags, KeepDocumentTags, KeepComments, Version) on the templates of the other properties plus option-specific templates; the kept construct must appear as in the input, version gates must hold, and the semantic oracle of the owning property must hold under every option value; non-trivial = completes with a distinct symbolic output",
+		ID:          "C16",
+		Rule:        "one case = one feasible path of a minifier with its option fields symbolic (KeepNumbers, KeepWhitespace, KeepCSS2, KeepDefaultAttrVals, KeepQuotes, KeepEndTags, KeepDocumentTags, KeepComments, Version) on the templates of the other properties plus option-specific templates; the kept construct must appear as in the input, version gates must hold, and the semantic oracle of the owning property must hold under every option value; non-trivial = completes with a distinct symbolic output",
 		Assumptions: []string{"templates and bounds of the harnesses named in the job list", "ECMAScript versions 5, 2015, 2016, 2019, 2020 and 0 (unspecified)"},
 		Outside:     []string{"the CLI flag -> option wiring in cmd/minify/main.go (reflective argp parser, os.Args): not encoded", "Precision 1..17 outside Number/Decimal (C08 covers prec there)", "KeepVarNames (see C02), template delimiters, KeepSpecialComments"},
 		Stubs:       []string{"as in C01/C03/C04/C06/C07"},
@@ -413,8 +425,8 @@ func propC16() *PropSpec {
 
 func propC11() *PropSpec {
 	return &PropSpec{
-		ID:   "C11",
-		Rule: "one case = one feasible path of html.Minify / svg.Minify (and DataURI inside them) on a host template with a symbolic embedded payload and a symbolic registry (per media type: nothing / recording stub / failing stub); commutation oracle: the host output carries exactly stub(payload), the stub is called once with the documented media type and inline parameter, unregistered => bytes pass through, failing => the outer call fails; non-trivial = completes with a distinct symbolic output",
+		ID:          "C11",
+		Rule:        "one case = one feasible path of html.Minify / svg.Minify (and DataURI inside them) on a host template with a symbolic embedded payload and a symbolic registry (per media type: nothing / recording stub / failing stub); commutation oracle: the host output carries exactly stub(payload), the stub is called once with the documented media type and inline parameter, unregistered => bytes pass through, failing => the outer call fails; non-trivial = completes with a distinct symbolic output",
 		Assumptions: []string{"hosts: [prefix]<script A>P</script>, <style A>P</style>, <p style=P>, <p onclick=P>, <img src=data:MT,P>, <link href=data:...>, svg <style>P</style> and style attribute", "payload alphabets in harness/html/embed.go and harness/svg/embed.go", "type attributes from the listed set; the media type handed to the registry is the literal type attribute value"},
 		Outside:     []string{"real sub-minifiers inside real hosts (product of two symbolic runs)", "iframe/math/svg-in-html hosts, css url(data:) host", "position of the reported error inside the host document (only err != nil is decided)"},
 		Stubs:       []string{"embedded minifiers are recording stubs producing [[payload]]"},
@@ -439,8 +451,8 @@ func propC11() *PropSpec {
 
 func propC05() *PropSpec {
 	return &PropSpec{
-		ID:   "C05",
-		Rule: "one case = one feasible path of (*PathData).ShortenPathData / svg.Minify on path data and document templates whose command letters, coordinates (from short lists), number notations, separators, arc flags, attribute choices and options are symbolic; reference SVG 1.1 path interpreter compares absolute segments; attribute rule table decides kept/dropped; non-trivial = completes with a distinct symbolic output",
+		ID:          "C05",
+		Rule:        "one case = one feasible path of (*PathData).ShortenPathData / svg.Minify on path data and document templates whose command letters, coordinates (from short lists), number notations, separators, arc flags, attribute choices and options are symbolic; reference SVG 1.1 path interpreter compares absolute segments; attribute rule table decides kept/dropped; non-trivial = completes with a distinct symbolic output",
 		Assumptions: []string{"coordinates come from the lists in harness/svg/path.go (floating point runs concretely; symbolic floating point is out of reach)", "closepath directly after closepath compares equal to one closepath", "Precision 0"},
 		Outside:     []string{"arbitrary coordinate values (fractions, large exponents) through the float path: only the listed lexemes", "paths of more than 2-3 commands", "CSS inside style (C04/C11), transforms, gradients", "Precision > 0"},
 		Stubs:       []string{"math.* natively on concrete floats", "fmt native"},
@@ -456,7 +468,7 @@ func propC05() *PropSpec {
 			js = append(js, jobsN("svg", "VerifSVGPath", pick([]int{1}, []int{1, 2}), "M0 0 + n commands over 18 letters, coordinates over {0,10}")...)
 			js = append(js, jobsN("svg", "VerifSVGPathCurves", pick([]int{1, 2}, []int{1, 2}), "M0 0 + n curve commands (C/S/Q/T), coordinates over {0,10}")...)
 			js = append(js, jobsN("svg", "VerifSVGPathNumbers", pick([]int{2}, []int{2, 4}), "M a b [L c d]: 14 number notations x 3 separators")...)
-			js = append(js, jobsN("svg", "VerifSVGPathArc", pick([]int{1}, []int{1}), "arc with compact flags")...)
+			js = append(js, jobsN("svg", "VerifSVGPathArc", pick([]int{1, 2}, []int{1, 2}), "arc with compact flags; n>=2: implicitly repeated arcs")...)
 			js = append(js, jobsN("svg", "VerifSVGAttr", []int{0}, "26 root attributes x 26 x 9 child attributes x Inline x KeepComments")...)
 			js = append(js, Job{Pkg: "svg", Fn: "VerifSVGTwin", N: 0, ExpectFail: true, Desc: "vacuity twin"})
 			return js
@@ -466,8 +478,8 @@ func propC05() *PropSpec {
 
 func propC17() *PropSpec {
 	return &PropSpec{
-		ID:   "C17",
-		Rule: "one case = one table entry selected by a symbolic index (every entry of html EntitiesMap, attrMap, tagMap, css ShortenColorHex/ShortenColorName/optionalZeroDimension, xml EntitiesMap) checked against an independent reference (Go standard library html.UnescapeString, CSS named colours from x/image/colornames + rebeccapurple, lists written from the HTML standard / CSS Values), directly and through parse.ReplaceEntities; plus ToHash on all identifiers of n symbolic bytes; non-trivial = completes with a distinct symbolic output",
+		ID:          "C17",
+		Rule:        "one case = one table entry selected by a symbolic index (every entry of html EntitiesMap, attrMap, tagMap, css ShortenColorHex/ShortenColorName/optionalZeroDimension, xml EntitiesMap) checked against an independent reference (Go standard library html.UnescapeString, CSS named colours from x/image/colornames + rebeccapurple, lists written from the HTML standard / CSS Values), directly and through parse.ReplaceEntities; plus ToHash on all identifiers of n symbolic bytes; non-trivial = completes with a distinct symbolic output",
 		Assumptions: []string{"std html.UnescapeString is the reference HTML5 decoder", "reference lists of boolean / URL attributes and raw-text elements in harness/html/tables.go (svg and math count as foreign content handed over as a whole)", "level-4 length units are accepted in the zero-unit table"},
 		Outside:     []string{"elements next to which whitespace is dropped (blockTag/inlineTag traits) versus the rendering rules of the HTML standard: a finite judgement table with no input to quantify over; their effect on words is decided by C03", "svg tables"},
 		Stubs:       []string{"sync.Once sequential model", "sort.Slice model"},
@@ -491,10 +503,10 @@ func propC17() *PropSpec {
 
 func propC02() *PropSpec {
 	return &PropSpec{
-		ID:   "C02",
-		Rule: "one case = one feasible path of (a) getName/getIndex on a symbolic index (all names of one to three characters, both alphabets), (b) js.Minify with and without KeepVarNames on programs of nested function/arrow/for-let/catch/with scopes generated from symbolic choices, free variables named like the first short names the renamer hands out; the dependency's parser resolves both outputs and the occurrence-to-binding partitions must coincide; non-trivial = completes with a distinct symbolic output",
-		Assumptions: []string{"scope shapes of the generators in harness/js/rename.go (one function with two statements out of var/use/for-let/nested/with/try-catch; chains of three nested functions)", "paths on which the two modes differ in structure (identifier counts) are assumed away", "binding resolution of the dependency's parser is trusted"},
-		Outside:     []string{"classes, methods, destructuring and default parameters, labels, import/export names, switch scopes", "scopes with more bindings than one- and two-character names (covered only through the getName/getIndex lemma up to three characters)", "property names (never identifiers in the generators)"},
+		ID:          "C02",
+		Rule:        "one case = one feasible path of (a) getName/getIndex on a symbolic index (all names of one to three characters, both alphabets), (b) js.Minify with and without KeepVarNames on programs of nested function/arrow/for-let/catch/with scopes generated from symbolic choices, free variables named like the first short names the renamer hands out; the dependency's parser resolves both outputs and the occurrence-to-binding partitions must coincide; non-trivial = completes with a distinct symbolic output",
+		Assumptions: []string{"scope shapes of the generators in harness/js/rename.go (one function with two statements out of var/use/for-let/nested/with/try-catch; chains of three nested functions; blocks nested three deep with lexical bindings and hoisted vars; a with-function built from methods, getters, setters, classes, switch/catch/for/block scopes)", "occurrences are compared without the names of var declarators that have no initialiser (they come and go with hoisting)", "paths on which the two modes differ in structure (identifier counts) are assumed away", "binding resolution of the dependency's parser is trusted"},
+		Outside:     []string{"destructuring and default parameters, labels, import/export names; classes, methods and switch scopes only inside the with-function generator", "scopes with more bindings than one- and two-character names (covered only through the getName/getIndex lemma up to three characters)", "property names (never identifiers in the generators)"},
 		Stubs:       []string{"sort.Slice/sort.Sort interpreted or modelled", "fmt native"},
 		Jobs: func(tier string) []Job {
 			var js []Job
@@ -505,6 +517,8 @@ func propC02() *PropSpec {
 			}
 			js = append(js, jobsN("js", "VerifJSRename", []int{0}, "one function/arrow with two statements, with-statement symbolic")...)
 			js = append(js, jobsN("js", "VerifJSRenameChain", []int{0, 1}, "0: three nested functions with parameters; 1: four nested parameterless functions/arrows around one outer variable")...)
+			js = append(js, jobsN("js", "VerifJSRenameBlocks", []int{0}, "blocks nested three deep: lexical bindings per level x hoisted vars in the innermost block x use counts")...)
+			js = append(js, jobsN("js", "VerifJSRenameWith", []int{0}, "with-function built from 3 of 11 parts (methods, getters, classes, nested functions; catch/for/block/switch scopes with `with`)")...)
 			js = append(js, Job{Pkg: "js", Fn: "VerifJSEvalTwin", N: 0, ExpectFail: true, Desc: "vacuity twin"})
 			return js
 		},
@@ -513,8 +527,8 @@ func propC02() *PropSpec {
 
 func propC12() *PropSpec {
 	return &PropSpec{
-		ID:   "C12",
-		Rule: "one case = one feasible path AND schedule of the real wrappers ((*M).Reader, (*M).Writer, ResponseWriter, Middleware, MiddlewareWithError, Bytes, String, Minify) executed on the engine's cooperative goroutine model: input bytes, producer chunk sizes, consumer buffer sizes, the schedule choice at every go statement, the registry (literal / pattern), Content-Type, request path, Content-Length and explicit WriteHeader are symbolic; non-trivial = completes with a distinct symbolic output",
+		ID:          "C12",
+		Rule:        "one case = one feasible path AND schedule of the real wrappers ((*M).Reader, (*M).Writer, ResponseWriter, Middleware, MiddlewareWithError, Bytes, String, Minify) executed on the engine's cooperative goroutine model: input bytes, producer chunk sizes, consumer buffer sizes, the schedule choice at every go statement, the registry (literal / pattern), Content-Type, request path, Content-Length and explicit WriteHeader are symbolic; non-trivial = completes with a distinct symbolic output",
 		Assumptions: []string{"goroutines are modelled as coroutines that switch only at the blocking points of the modelled io.Pipe and sync.WaitGroup (and optionally right at the go statement); preemption inside non-blocking code is not modelled", "the registered minifier is a stub that reads all input, writes in several pieces, probes the writer with Write(nil) and fails on a 'z'", "http.ResponseWriter is a recording stub that sends the header on WriteHeader or on the first Write, as net/http does"},
 		Outside:     []string{"real preemptive schedules, the race detector", "net/http server internals", "the six real minifiers behind the wrappers (their chunk independence follows from parse.NewInput reading everything first, exercised by C14)", "inputs longer than n"},
 		Stubs:       []string{"io.Pipe / (*PipeReader) / (*PipeWriter) methods: harness model (synchronous rendezvous incl. zero-length writes)", "sync.WaitGroup: counter model", "mime.TypeByExtension: Go's built-in table for .html .css .js", "regexp: model of the two patterns of C15"},
@@ -530,6 +544,7 @@ func propC12() *PropSpec {
 			js = append(js, jobsN(".", "VerifEntryPoints", pick(rng(0, 2), rng(0, 3)), "Minify with chunking reader, Bytes, String, Reader wrapper with symbolic consumer buffers")...)
 			js = append(js, jobsN(".", "VerifWriterWrapper", pick(rng(0, 3), rng(0, 4)), "Writer wrapper: symbolic producer chunks, failing underlying writer, Close semantics")...)
 			js = append(js, jobsN(".", "VerifMiddleware", pick(rng(0, 2), rng(0, 3)), "Middleware / MiddlewareWithError / ResponseWriter: Content-Type vs path extension, Content-Length, WriteHeader")...)
+			js = append(js, jobsN(".", "VerifResponseWriterFault", pick(rng(1, 3), rng(1, 4)), "ResponseWriter over an underlying writer failing from its k-th Write with 4 error kinds: reported by Write or Close")...)
 			js = append(js, Job{Pkg: ".", Fn: "VerifDispatchTwin", N: 0, ExpectFail: true, Desc: "vacuity twin"})
 			return js
 		},
@@ -538,16 +553,32 @@ func propC12() *PropSpec {
 
 func propC13() *PropSpec {
 	return &PropSpec{
-		ID:   "C13",
-		Rule: "one case = one feasible path and cooperative schedule: (a) every entry point (Minify, Bytes, String, Reader, Writer) on a registry whose minifier re-enters the registry (MinifyMimetype, Minify, Match, Bytes), with sync.RWMutex modelled so that a write lock under a held read lock is a reported deadlock; (b) Match/Bytes calls issued while another call is in flight on another modelled goroutine; (c) option structs of all six minifiers unchanged by calls with and without the inline parameter, repeated calls and a fresh struct give the same bytes; non-trivial = completes with a distinct symbolic output",
-		Assumptions: []string{"goroutines are coroutines that switch at the blocking points of the modelled io.Pipe / WaitGroup / RWMutex", "sequential sufficient conditions stand in for the schedule quantifier: no write lock and no write to shared state inside a call (option structs, registry), byte-identical repeated results"},
-		Outside:     []string{"real preemptive interleavings, the race detector, GOMAXPROCS, cross-process repeatability: not reachable by symbolic execution of the code (stated; not replaced by another technique)", "writes to package-level state other than through the option structs are not monitored natively"},
+		ID:          "C13",
+		Rule:        "one case = one feasible path and cooperative schedule: (a) every entry point (Minify, Bytes, String, Reader, Writer) on a registry whose minifier re-enters the registry (MinifyMimetype, Minify, Match, Bytes), with sync.RWMutex modelled so that a write lock under a held read lock is a reported deadlock; (b) Match/Bytes calls issued while another call is in flight on another modelled goroutine; (c) option structs of all six minifiers unchanged by calls with and without the inline parameter, repeated calls and a fresh struct give the same bytes; non-trivial = completes with a distinct symbolic output",
+		Assumptions: []string{"goroutines are coroutines that switch at the blocking points of the modelled io.Pipe / WaitGroup / RWMutex", "sequential sufficient conditions stand in for the schedule quantifier: no write lock inside a call, no store to any memory cell or map that existed before the call (write-set monitor of the engine: package-level state, option struct, registry; the caller's input buffer and the synchronisation models excepted), byte-identical repeated results"},
+		Outside:     []string{"real preemptive interleavings, the race detector, GOMAXPROCS, cross-process repeatability: not reachable by symbolic execution of the code (stated; not replaced by another technique)", "the write-set monitor exists only in the engine: its violations are engine-only (natively the clause is vacuous)", "reads of shared state that another call writes are covered only through the no-write clause (if nobody writes there is nothing to race with)"},
 		Stubs:       []string{"sync.RWMutex: readers/writer model", "io.Pipe, sync.WaitGroup models of C12"},
 		Jobs: func(tier string) []Job {
 			var js []Job
 			js = append(js, jobsN(".", "VerifRegistryReentrant", rng(0, 2), "5 entry points x re-entrant minifier x in-flight concurrent calls")...)
 			for _, p := range [][2]string{{"css", "VerifCSSOptionsImmutable"}, {"html", "VerifHTMLOptionsImmutable"}, {"svg", "VerifSVGOptionsImmutable"}, {"js", "VerifJSOptionsImmutable"}, {"json", "VerifJSONOptionsImmutable"}, {"xml", "VerifXMLOptionsImmutable"}} {
 				js = append(js, Job{Pkg: p[0], Fn: p[1], N: 0, Desc: "option struct unchanged, repeatable, history independent, all option values symbolic"})
+			}
+			// write-set monitor (engine-only clause): no store to memory that existed before the call
+			for _, p := range [][2]string{{"css", "VerifCSSSharedState"}, {"html", "VerifHTMLSharedState"}, {"svg", "VerifSVGSharedState"}, {"js", "VerifJSSharedState"}, {"json", "VerifJSONSharedState"}, {"xml", "VerifXMLSharedState"}} {
+				ns := []int{0, 1, 2}
+				if p[0] == "js" && tier == "quick" {
+					ns = []int{0, 1}
+				}
+				if tier != "quick" && p[0] != "js" && p[0] != "html" {
+					ns = []int{0, 1, 2, 3}
+				}
+				for _, n := range ns {
+					js = append(js, Job{Pkg: p[0], Fn: p[1], N: n, NoNative: true, Desc: "write-set monitor: one call (n=0: concrete documents, n>0: n arbitrary bytes), options and inline parameter symbolic"})
+				}
+			}
+			for _, n := range []int{0, 1} {
+				js = append(js, Job{Pkg: ".", Fn: "VerifRegistrySharedState", N: n, NoNative: true, Desc: "write-set monitor: 5 entry points x 9 media types on a registry with literal and pattern entries"})
 			}
 			js = append(js, Job{Pkg: ".", Fn: "VerifDispatchTwin", N: 0, ExpectFail: true, Desc: "vacuity twin"})
 			return js
@@ -557,8 +588,8 @@ func propC13() *PropSpec {
 
 func propC19() *PropSpec {
 	return &PropSpec{
-		ID:   "C19",
-		Rule: "one case = one feasible path of the real cmd/minify code: createTasks on an in-memory fs.FS with symbolic presence of 11 tree entries (hidden files, unknown extensions, nested and hidden directories, symlinks to a file and to a directory), flags recursive/hidden/sync, explicit media type, 4 input shapes x 4 output shapes, against a reference model of the documented destination rules; concatFileReader on symbolic file contents, separator, chunkings; minify(Task) on an engine-side model of the os package for 6 invocation shapes incl. write faults; non-trivial = completes with a distinct symbolic output",
+		ID:          "C19",
+		Rule:        "one case = one feasible path of the real cmd/minify code: createTasks on an in-memory fs.FS with symbolic presence of 11 tree entries (hidden files, unknown extensions, nested and hidden directories, symlinks to a file and to a directory), flags recursive/hidden/sync, explicit media type, 4 input shapes x 4 output shapes, against a reference model of the documented destination rules; concatFileReader on symbolic file contents, separator, chunkings; minify(Task) on an engine-side model of the os package for 6 invocation shapes incl. write faults; non-trivial = completes with a distinct symbolic output",
 		Assumptions: []string{"model file system: flat path map with one level of symbolic links, implicit directories, atomic rename/remove, truncate at open, all-or-prefix writes", "the library is a stub minifier (drops x, doubles y, fails on z)", "filters (match/include/exclude), preserve options and watch mode are off"},
 		Outside:     []string{"run(): flag parsing (argp), stdin/stdout plumbing, worker pool, watch mode", "permissions, ownership, timestamps (preserveAttributes is reached with all preserve options off)", "the real kernel: only the model's semantics", "minify(Task) violations cannot be replayed natively (the file system is a model): they are reported as engine-only"},
 		Stubs:       []string{"os.Lstat/Stat/SameFile/Readlink/Rename/Remove/MkdirAll/Symlink/Chmod/Chown/Chtimes/Open/OpenFile and (*os.File).Read/Write/Close/ReadFrom/WriteTo: model in harness/cmd_minify/vfs.go", "time.Now/Since, atime.Get: constants", "log, fmt.Print*: no-ops"},
@@ -581,8 +612,8 @@ func propC19() *PropSpec {
 
 func propC20() *PropSpec {
 	return &PropSpec{
-		ID:   "C20",
-		Rule: "one case = one feasible path of the real minify(Task) on the model file system with the kill point k symbolic (the process dies right before the k-th mutating operation: rename, create/truncate at open, each write, remove, symlink) for in-place, separate-output, in-place-through-symlink, bundle-onto-an-input, bundle-to-new-file and sync-copy invocations, contents symbolic up to n bytes incl. contents on which minification fails; plus write faults (C19 job): the original bytes of every input are at their path, in a .bak of the path or of an alias, or the path holds the complete new output",
+		ID:          "C20",
+		Rule:        "one case = one feasible path of the real minify(Task) on the model file system with the kill point k symbolic (the process dies right before the k-th mutating operation: rename, create/truncate at open, each write, remove, symlink) for in-place, separate-output, in-place-through-symlink, bundle-onto-an-input, bundle-to-new-file and sync-copy invocations, contents symbolic up to n bytes incl. contents on which minification fails; plus write faults (C19 job): the original bytes of every input are at their path, in a .bak of the path or of an alias, or the path holds the complete new output",
 		Assumptions: []string{"model semantics: rename atomic, O_TRUNC empties at open, write = all bytes or a prefix, remove atomic (the trusted base); no page cache / fsync semantics", "one task at a time"},
 		Outside:     []string{"real kernel and file system crash semantics (ptrace-level system call boundaries, fsync, journaling): not reachable; only the stated model", "chmod/chtimes steps (preserve options off)", "violations are engine-only (no native counterpart of a kill point)"},
 		Stubs:       []string{"as C19"},
